@@ -158,8 +158,13 @@ def scenario(t, g, enc, rng, res, getter):
         x = pick_x(y)
         c = (x, y) if rng.random() < 0.6 else f"{TL.alpha(x)}{y + 1}"
         call["coord"] = c
-        cell = t.get_cell(c)
-        objs.append((cell, "cell", x, y, False))
+        keep = rng.random() < 0.6
+        call["keep_repeated"] = keep
+        cell = t.get_cell(c) if keep else t.get_cell(c, keep_repeated=False)
+        # keep_repeated=False is the documented expanding form of the single-cell read
+        objs.append((cell, "cell", x, y, not keep))
+        if not keep:
+            tags += ["keep_repeated=False"]
         tags += ["beyond" if (y >= H or x >= W) else ("run" if y < H and _in_run(enc.cells_of(y), x) else "plain")]
     elif getter == "get_row":
         y = pick_y()
